@@ -193,7 +193,10 @@ class Sidecar:
                     cname = self._const(call.args[0])
                     R.fields.setdefault(cname, {})
                     for k, v in kw.items():
-                        R.fields[cname][k] = parse_type(v)
+                        if k == '__file__':
+                            R.fields[cname][k] = self._const(v)
+                        else:
+                            R.fields[cname][k] = parse_type(v)
                 elif fn == 'opaque':
                     key = (self._const(call.args[0]), self._const(call.args[1]))
                     d = {}
@@ -211,8 +214,8 @@ class Sidecar:
                 continue
             if isinstance(st, ast.Expr) and isinstance(st.value, ast.Constant):
                 continue
-            if isinstance(st, (ast.If,)):
-                continue            # `if __name__ == '__main__'` blocks for native use
+            if isinstance(st, (ast.If, ast.ClassDef)):
+                continue            # native-only: `if __name__ == '__main__'` blocks, stand-in classes of assumed externals
             raise ValueError('%s: unsupported top-level statement: %s' % (self.path, ast.unparse(st)[:80]))
 
 
